@@ -711,7 +711,7 @@ static int ec_delete(char *loc, char *cmd, char *arg, char *txt)
 		return 1;
 	ex_yank(REG(arg), beg, end);
 	lbuf_edit(xb, NULL, beg, end);
-	xrow = beg;
+	xrow = MAX(0, MIN(beg, lbuf_len(xb) - 1));
 	return 0;
 }
 
